@@ -34,17 +34,22 @@ namespace occa {
     }
 
     hash_t device::kernelHash(const occa::json &props) const {
-      return (
-        occa::hash(props["compiler"])
-        ^ props["compiler_flags"]
-        ^ props["compiler_env_script"]
-        ^ props["compiler_vendor"]
-        ^ props["compiler_language"]
-        ^ props["compiler_linker_flags"]
-        ^ props["compiler_shared_flags"]
-        ^ props["include_occa"]
-        ^ props["link_occa"]
-      );
+      // Hash the settings together with their names: XOR-ing the hashes of the
+      // values let equal values of two settings cancel each other and made
+      // configurations with swapped values share one cache entry
+      const char *names[] = {
+        "compiler", "compiler_flags", "compiler_env_script", "compiler_vendor",
+        "compiler_language", "compiler_linker_flags", "compiler_shared_flags",
+        "include_occa", "link_occa", "okl"
+      };
+      std::string key;
+      for (const char *name : names) {
+        key += name;
+        key += '=';
+        key += props[name].toString();
+        key += '\n';
+      }
+      return occa::hash(key);
     }
 
     //---[ Stream ]---------------------
